@@ -1477,7 +1477,7 @@ end natural
 /-! ### the world: aliasing, immutability of stored frames -/
 
 section world
-variable {K : Type} [Add K] [Mul K] [NatCast K] [LT K] [DecidableLT K]
+variable {K : Type} [Add K] [Sub K] [Mul K] [Neg K] [NatCast K] [LT K] [DecidableLT K] [LE K] [DecidableLE K]
 
 /-- the frames of all storages are private: they lie in the heap and none of them is the
 buffer of a live field.  Holds in the empty world and is preserved by every operation except
@@ -1654,6 +1654,24 @@ theorem heapExt_step (w : World K) (op : Op K) (hs : op.safe = true) : HeapExt w
         · split <;> exact heapExt_append _ _ _ rfl
   | fromFields times fids m => simp [Op.safe] at hs
   | poke sid i vals => simp [Op.safe] at hs
+  | fromCollection sids label rtol atol =>
+    simp only [step]
+    split
+    · exact heapExt_refl w
+    · exact heapExt_append _ _ [] (by simp)
+    · split
+      · exact heapExt_refl w
+      · split
+        · exact heapExt_refl w
+        · split
+          · exact heapExt_refl w
+          · split
+            · exact heapExt_refl w
+            · split_ifs
+              · exact heapExt_refl w
+              · split
+                · exact heapExt_refl w
+                · exact heapExt_append _ _ _ rfl
 
 /-- a frame id that may be stored: in the heap and not the buffer of a live field -/
 def World.Private (w : World K) (id : Nat) : Prop :=
@@ -1909,6 +1927,30 @@ theorem inv_step (w : World K) (op : Op K) (hs : op.safe = true) (h : w.Inv) : (
           · exact inv_heap_grow w _ h
   | fromFields times fids m => simp [Op.safe] at hs
   | poke sid i vals => simp [Op.safe] at hs
+  | fromCollection sids label rtol atol =>
+    simp only [step]
+    split
+    · exact h
+    · exact inv_push_store w _ h (by simp [Store.new])
+    · split
+      · exact h
+      · split
+        · exact h
+        · split
+          · exact h
+          · split
+            · exact h
+            · split_ifs
+              · exact h
+              · split
+                · exact h
+                · next s' hs' =>
+                  apply inv_push_store _ s' (inv_heap_grow w _ h)
+                  intro id hid
+                  unfold construct at hs'
+                  split_ifs at hs'
+                  cases hs'
+                  exact private_fresh w _ h id (by simpa using hid)
 
 theorem getElem?_set_other {α : Type} (l : List α) (i j : Nat) (a : α) (h : i ≠ j) :
     (l.set i a)[j]? = l[j]? := List.getElem?_set_ne h
@@ -2056,6 +2098,24 @@ theorem stores_step_other (w : World K) (op : Op K) (sid : Nat) (s : Store K Nat
     cases w.stores[sid']? with
     | none => exact hs
     | some s1 => simp only; cases s1.frames[i]? <;> exact hs
+  | fromCollection sids label rtol atol =>
+    simp only [step]
+    split
+    · exact hs
+    · exact push _
+    · split
+      · exact hs
+      · split
+        · exact hs
+        · split
+          · exact hs
+          · split
+            · exact hs
+            · split_ifs
+              · exact hs
+              · split
+                · exact hs
+                · exact push _
 
 /-- what a reader sees of a storage depends only on the storage object and on the content of
 its (private) buffers -/
